@@ -157,7 +157,7 @@ class Emitter:
 
 
 # ------------------------------------------------------------------------------------------------
-# flattening: inline every instance of `top`, renaming the child's identifiers to "<inst>.<name>"
+# flattening: inline every instance of `top`, renaming the child's identifiers to "<inst>/<name>"
 
 class FlattenError(Exception):
     pass
@@ -246,7 +246,7 @@ def flatten(mods, top, prefix=""):
             if modname not in by_name:
                 raise FlattenError("instance of undefined module " + modname)
             child = by_name[modname]
-            cports, citems = flatten(mods, modname, prefix + inst + ".")
+            cports, citems = flatten(mods, modname, prefix + inst + "/")
             dirs = {}
             for d in child[3]:
                 if d[0] == "decl":
@@ -264,7 +264,7 @@ def flatten(mods, top, prefix=""):
                 if e is None:
                     continue
                 e2 = _ren_expr(e, f)
-                pn = ("id", prefix + inst + "." + p)
+                pn = ("id", prefix + inst + "/" + p)
                 if dirs.get(p) == "input":
                     out.append(("assign", pn, e2))
                 elif dirs.get(p) == "output":
